@@ -49,7 +49,7 @@ def audit_sources():
 
 def print_axioms(module, theorems):
     """`#print axioms` on each theorem; returns {theorem: [axioms]} (None on failure)"""
-    src = "import %s\nopen GasolVerif\n" % module + "".join("#print axioms %s\n" % t for t in theorems)
+    src = "".join("import %s\n" % m for m in module.split(",")) + "open GasolVerif\n" + "".join("#print axioms %s\n" % t for t in theorems)
     tmp = os.path.join(LEAN, ".lake", "axcheck_%d.lean" % os.getpid())
     os.makedirs(os.path.dirname(tmp), exist_ok=True)
     open(tmp, "w").write(src)
